@@ -42,6 +42,8 @@ type pendingOp struct {
 	wgCell     *value
 	rw         *rwState
 
+	site string // where the goroutine is parked (for deadlock reports)
+
 	// results
 	chosen   int
 	recvVal  value
@@ -377,10 +379,14 @@ func (s *scheduler) dispatch(from *goroutine) {
 		desc := ""
 		for _, g := range s.gs {
 			if !g.done && g.op != nil {
-				desc += fmt.Sprintf(" g%d(%s):%s", g.id, g.name, opName(g.op))
+				desc += fmt.Sprintf(" g%d(%s):%s at %s;", g.id, g.name, opName(g.op), g.op.site)
 			}
 		}
-		s.ps.violation("deadlock", "all goroutines blocked:"+desc, s.ps.lastSite(), nil)
+		site := ""
+		if s.main.op != nil {
+			site = s.main.op.site
+		}
+		s.ps.violation("deadlock", "all goroutines blocked:"+desc, site, nil)
 		ap := abortPath{"violation", "deadlock"}
 		s.abortAll(ap, true)
 		panic(ap)
